@@ -285,6 +285,7 @@ def run(ctx):
     stale_record_family(ctx, rng, 150 if quick else 3000)
     dyndep_cycle_family(ctx, rng, 150 if quick else 3000)
     dyndep_binding_cycle_family(ctx, rng, 150 if quick else 3000)
+    mixed_cycle_family(ctx, rng, 200 if quick else 4000)
     ctx.rule = ("all graphs with 1..2 statements over 3 files (1 explicit + optional implicit output; each other file: none / explicit / "
                 "implicit / order-only / validation), every %d-th graph with 3 statements over 4 files, random graphs of 4..%d statements "
                 "with planted back edges, validations nested 1..3 deep with the cycle behind the last level, stale-record and dyndep mid-build families; distinct_nontrivial = distinct scenarios whose "
@@ -369,6 +370,98 @@ def dyndep_cycle_family(ctx, rng, n):
             ctx.inconclusive += 1
             continue
         judge(ctx, scn, sc, step, r[0]["trace"], extra, "/dyndep-mid-build")
+
+
+def mixed_cycle_family(ctx, rng, n):
+    """A cycle that exists only in the union of two kinds of discovered information and appears in the middle of a build:
+    F's recorded dependencies (deps log / depfile, from an earlier build) name a plain header x.h; a dyndep file regenerated
+    in this build declares x.h an implicit output of E, which consumes F's output.  e.out -> f.o -> x.h -> (E)."""
+    jobs = []
+    for k in range(n):
+        deps = rng.choice(("gcc", "msvc", "depfile", "gcc"))
+        cyc = rng.random() < 0.65
+        between = rng.randint(0, 1)
+        srcs = {"f.c": "#include x.h\n// f\n", "x.h": "// x\n", "e.src": "// served\n", "g.c": "// g\n"}
+        F = St("F", ["f.o"], ins=["f.c"], deps=deps, depfile="f.o.d" if deps != "msvc" else "")
+        declared = rng.random() < 0.25
+        if declared:
+            # the same with x.h written in the manifest (no discovered information on F's side at all)
+            F = St("F", ["f.o"], ins=["f.c"], iins=["x.h"])
+        prev = "f.o"
+        chain = []
+        for b in range(between):
+            st = St("M%d" % b, ["m%d.o" % b], ins=["g.c", prev])
+            chain.append(st)
+            prev = "m%d.o" % b
+        scan = St("scan", ["dd"], ins=["e.src"], kind="scan", serves=[["e.out", "e.src"]])
+        E = St("E", ["e.out"], ins=["e.src", prev], dd=True, dyndep="dd")
+        E[rng.choice(("oins", "iins"))] = ["dd"]
+        stmts = [F] + chain + [scan, E]
+        rng.shuffle(stmts)
+        sc = {"id": "C17-M-%d-%d" % (ctx.seed, k), "pools": {}, "defaults": [], "sources": srcs, "stmts": stmts}
+        sc2 = copy.deepcopy(sc)
+        sc2["sources"]["e.src"] = "#provides %s\n// served\n" % ("x.h" if cyc else "side.h")
+        steps = [{"op": "build", "targets": [], "j": 2, "k": 1, "sched": {"mode": "prng", "seed": 1}},
+                 {"op": "write", "path": "e.src", "content": sc2["sources"]["e.src"]}]
+        if rng.random() < 0.7:
+            steps.append({"op": "touch", "path": "f.c"})       # F out of date on its own account, its output still there
+        tg = rng.choice(([], [], ["e.out"], ["e.out", "f.o"], ["f.o"]))
+        steps.append({"op": "build", "targets": tg, "j": rng.choice((1, 2, 3)), "k": 1, "sched": {"mode": "prng", "seed": rng.randint(1, 10 ** 6)}})
+        jobs.append((simlib.scenario_json(sc, steps), sc2, steps[-1], (cyc, declared)))
+    res = {}
+
+    def handler(scn, results, err):
+        res[scn["id"]] = results
+    simlib.run_scenarios([j[0] for j in jobs], handler)
+    for scn, sc2, step, (cyc, declared) in jobs:
+        r = res.get(scn["id"])
+        builds = [x for x in (r or []) if x.get("op") == "build"]
+        if len(builds) < 2 or builds[-1].get("skipped"):
+            ctx.inconclusive += 1
+            continue
+        t0, t = builds[0]["trace"], builds[-1]["trace"]
+        rep = {"scenario": scn}
+        ctx.evaluations += 1
+        for tt in (t0, t):
+            if tt.get("crash"):
+                ctx.violation("C17/nsim-crash/" + (util.san_signature(tt.get("stderr", "")) or "crash"), "scenario %s: %s" % (scn["id"], tt.get("stderr", "")[-1500:]), rep)
+                break
+        else:
+            if t0["result"].get("exit") != 0:
+                ctx.inconclusive += 1
+                ctx.count("mixed_cycle_setup_failed")
+                continue
+            tg = step["targets"] or ["e.out"]
+            in_closure = "e.out" in tg
+            err = t["result"].get("err") or ""
+            started = [e["o"] for e in t["events"] if e["e"] == "S"]
+            if cyc and in_closure:
+                ctx.count("cyclic_cases/mixed-mid-build")
+                ctx.nontrivial(scn["id"])
+                if t["result"].get("exit") == 0 or "dependency cycle: " not in err:
+                    # where was F when the dyndep file was loaded (= when its producer finished)?
+                    fin = [e["o"] for e in t["events"] if e["e"] == "F"]
+                    f_done_first = "f.o" in fin and (("dd" not in fin) or fin.index("f.o") < fin.index("dd"))
+                    f_ran = "f.o" in started
+                    state = "consumer-already-finished" if f_done_first else ("consumer-clean" if not f_ran else "consumer-pending")
+                    ctx.violation("C17/cycle-not-diagnosed/%s+dyndep-output/%s" % ("declared-input" if declared else "recorded-dependency", state),
+                                  "scenario %s targets=%s: f.o %s x.h and the dyndep file loaded in this build makes x.h an output "
+                                  "of the statement that consumes f.o, yet ninja exits %s (%r); started %s, finished %s" %
+                                  (scn["id"], tg, "declares" if declared else "has recorded a dependency on", t["result"].get("exit"), err, started, fin), rep)
+                    continue
+                path = err.split("dependency cycle: ", 1)[1].split(" [-w")[0].strip().split(" -> ")
+                if len(path) < 2 or path[0] != path[-1] or not {"x.h", "f.o"} <= set(path):
+                    ctx.violation("C17/reported-path-not-the-cycle/mixed", "scenario %s: %r" % (scn["id"], err), rep)
+                    continue
+                if "e.out" in started:
+                    ctx.violation("C17/cycle-member-ran/mixed", "scenario %s: E was started" % scn["id"], rep)
+                    continue
+                ctx.count("cycles_diagnosed_and_validated")
+            else:
+                ctx.count("acyclic_cases/mixed-mid-build")
+                if "dependency cycle" in err or t["result"].get("exit") != 0:
+                    ctx.violation("C17/false-cycle/mixed", "scenario %s targets=%s: no cycle in the requested closure, ninja exits %s: %r" %
+                                  (scn["id"], tg, t["result"].get("exit"), err), rep)
 
 
 def dyndep_binding_cycle_family(ctx, rng, n):
